@@ -9,6 +9,9 @@
 (*   of length <= max that extend its prefix, grown token by token and not  *)
 (*   extended past the first bad token plus one (errTok+1), so the count    *)
 (*   stays near (#viable prefixes) x |alphabet|.  Every state is a vector.  *)
+(* Mode "tokall": the same without the pruning - EVERY sequence over the     *)
+(*   (small) alphabet that extends the prefix; used at the keyword sites,   *)
+(*   where what follows a token wrongly taken for a keyword matters.        *)
 (* Mode "sim": the same machine restricted to viable continuations (the     *)
 (*   last two tokens are free), for `tlc -simulate` with long strings.      *)
 (* Mode "chr": ALL character-class sequences X over the alphabet of length  *)
@@ -80,14 +83,23 @@ AlphaDoc == {"BOM", " ", "LF", "#", "U2", "x", "{", "DQ"}
 
 \* ------------------------------------------------------------------ family tables
 TokFam(name, alpha, max, prefix) == Fam(name, "tok", alpha, max, prefix, <<>>, <<>>)
+AllFam(name, alpha, max, prefix) == Fam(name, "tokall", alpha, max, prefix, <<>>, <<>>)
+\* keyword sites: what may stand where `on` / `implements` is expected, and everything after it
+KwFrag == AllFam("kwfrag", {"String", "BlockString", "Name", "{", "}"}, 7, <<"fragment", "Name">>)
+KwDir  == AllFam("kwdir", {"String", "on", "Name", "|", "("}, 7, <<"directive", "@", "Name">>)
+KwInl  == AllFam("kwinl", {"String", "Name", "{", "}"}, 8, <<"{", "...">>)
+KwImpl == AllFam("kwimpl", {"String", "implements", "Name", "{", ":"}, 6, <<"type", "Name">>)
+KwImpl2 == AllFam("kwimpl2", {"Name", "{", "}", ":"}, 9, <<"type", "Name", "String">>)
 ChrFam(name, pre, post, alpha, max) == Fam(name, "chr", alpha, max, <<>>, pre, post)
 
 \* quick: ~49k token strings, ~17k character strings; thorough: ~4.7M token strings, ~0.8M character strings
 \* (TLC needs ~0.3 ms CPU per token string and 2-5 ms per character string)
 FamsTokQuick == << TokFam("exec", ExecSmall, 5, <<>>), TokFam("typesys", TypeSysSmall, 4, <<>>),
-                   TokFam("vardef", VarDefAlpha, 9, PfxVarDef), TokFam("fielddef", VarDefAlpha, 9, PfxFieldDef) >>
+                   TokFam("vardef", VarDefAlpha, 9, PfxVarDef), TokFam("fielddef", VarDefAlpha, 9, PfxFieldDef),
+                   KwFrag, KwDir, KwInl, KwImpl, KwImpl2 >>
 FamsTokThorough == << TokFam("exec", ExecFull, 6, <<>>), TokFam("exec7", ExecSmall, 7, <<>>), TokFam("typesys", TypeSys, 5, <<>>),
-                      TokFam("vardef", VarDefAlpha, 12, PfxVarDef), TokFam("fielddef", VarDefAlpha, 11, PfxFieldDef) >>
+                      TokFam("vardef", VarDefAlpha, 12, PfxVarDef), TokFam("fielddef", VarDefAlpha, 11, PfxFieldDef),
+                      KwFrag, KwDir, KwInl, KwImpl, KwImpl2 >>
 FamsChrQuick == << ChrFam("ign", PreIgn, PostIgn, AlphaIgnTiny, 4), ChrFam("doc", PreDoc, PostDoc, AlphaDocTiny, 4),
                    ChrFam("str", PreStr, PostStr, AlphaStrTiny, 4), ChrFam("stru", PreStrU, PostStr, AlphaHexTiny, 4),
                    ChrFam("blk", PreBlk, PostBlk, AlphaBlkTiny, 4), ChrFam("blk2", PreBlk2, PostBlk, AlphaBlkTiny, 4),
@@ -210,7 +222,7 @@ Init == /\ fi \in 1..Len(Fams)
 
 Next ==
   /\ Len(seq) < Fams[fi].max
-  /\ IF Mode = "chr" THEN TRUE ELSE Extendable(vec)
+  /\ IF Mode \in {"chr", "tokall"} THEN TRUE ELSE Extendable(vec)
   /\ \E x \in Fams[fi].alpha :
        \* (state-level LETs, so that TLC evaluates the vector once)
        LET s2 == Append(seq, x)
